@@ -267,10 +267,24 @@ def run(rep, tier, rng):
                     oaa = c.outcome(lambda: oa[1].abs())
                     if oaa[0] != "ok" or not np.allclose(oaa[1].v, oa[1].v, atol=1e-9 * (1 + np.abs(oa[1].v).max())):
                         rep.violation(f"abs() is not idempotent on a vocabulary-less {al} pointer (v={v[:9]})", {"case": {"alg": al, "v": v}})
-                o3 = c.observe(lambda: A.abs(vf))
+                # the pointer method computes the same absolute vector (or refuses the same way) as the algebra
+                o3p = c.observe(lambda: pnv.abs().v)
+                add(f"check_sq_abs {al} {c.zlist(v)} {c.zmat(L)} {c.zlist(D)} {algs.tol_for(v, d=d)} {obs_t(o3p, algs.enc_vec)}",
+                    {"op": "sq-abs", "alg": al, "v": v, "pattern": pattern, "L": L, "D": D, "obs": c.obs_json(o3p), "py": "SemanticPointer(v, algebra=A).abs().v"},
+                    ("sp-sq-abs", al, tuple(v)), nontrivial=any(v))
+                vf_arg = np.array(vf, dtype=float)
+                o3 = c.observe(lambda: A.abs(vf_arg))
                 add(f"check_sq_abs {al} {c.zlist(v)} {c.zmat(L)} {c.zlist(D)} {algs.tol_for(v, d=d)} {obs_t(o3, algs.enc_vec)}",
                     {"op": "sq-abs", "alg": al, "v": v, "pattern": pattern, "L": L, "D": D, "obs": c.obs_json(o3), "py": "A.abs(v)"},
                     ("sq-abs", al, tuple(v)), nontrivial=any(v))
+                rep.case(("sq-abs-operand-unchanged", al, tuple(v)))
+                rep.count("abs-sign-leave-operand-unchanged")
+                c.outcome(lambda: A.sign(vf_arg))
+                if not np.array_equal(vf_arg, vf):
+                    rep.violation(f"{al}.abs / sign modified the caller's array in place (v={v[:9]})",
+                                  {"case": {"alg": al, "v": v}, "observed": vf_arg.tolist(),
+                                   "python": algs.PRELUDE + f"A = {algs.alg_py(al)}\nv = np.array({v}, float); w = v.copy()\ntry:\n    A.abs(v)\nexcept NotImplementedError:\n    pass\n"
+                                             "assert np.array_equal(v, w), 'abs changed its argument'\n"})
 
     verdicts = c.coq_eval("C17", "cases", algs.IMPORTS, exprs, shard=150)
     for ok, m in zip(verdicts, meta):
